@@ -330,6 +330,33 @@ func Run(r *fw.Run) {
 		}, func() { r.Merge(l) }
 	})
 	r.Sample(map[string]any{"kind": "record", "id": 10, "text": "a é\na\n", "tail": "5\nz\n\n"})
+	// byte sweep over record texts: every byte value and a few other fills at the start, in the middle
+	// and at the end of a line, in one-line and two-line texts
+	{
+		l := fw.NewLocal()
+		var fills []string
+		for b := 0; b < 256; b++ {
+			fills = append(fills, string([]byte{byte(b)}))
+		}
+		fills = append(fills, "%s", "%d", "é", "\u212a", "\ufffd", "\u2028", "\u0085", "\xe2\x82", "\r\n", "\n\n")
+		r.Bounds["record_text_byte_sweep"] = fmt.Sprintf("6 slots x (256 byte values + %d other fills) x %d ids x %d tails", len(fills)-256, len(ids), len(tails))
+		for _, sl := range [][2]string{{"", "a\n"}, {"a", "b\n"}, {"a", "\n"}, {"a\n", "b\n"}, {"a\nb", "\n"}, {"", ""}} {
+			for _, f := range fills {
+				text := []byte(sl[0] + f + sl[1])
+				l.States++
+				for _, id := range ids {
+					for _, tail := range tails {
+						l.Execs++
+						l.Transitions++
+						if msg, _ := recordCase(id, text, tail); msg != "" {
+							r.Violation("record:"+strconv.QuoteToASCII(string(text)), msg, caseT{Kind: "record", N: id, Text: strconv.QuoteToASCII(string(text)), Tail: strconv.QuoteToASCII(string(tail))})
+						}
+					}
+				}
+			}
+		}
+		r.Merge(l)
+	}
 
 	// tree heads
 	var hs []tlog.Hash
